@@ -4,3 +4,6 @@ import FontcProofs.VarModelAlg
 import FontcProofs.VarModelGeom
 import FontcProofs.VarModelSort
 import FontcProofs.VarModelTri
+import FontcProofs.SfntBasic
+import FontcProofs.SfntLayout
+import FontcProofs.SfntMain
